@@ -10,6 +10,7 @@ import (
 	"os"
 	"path/filepath"
 	"sort"
+	"strconv"
 	"strings"
 	"testing"
 
@@ -113,6 +114,14 @@ func trunc(b []byte) string {
 		return string(b[:60]) + "…"
 	}
 	return string(b)
+}
+
+// c14BodyName: every other body file has a name with colons in it (a time of day, a host:port), which a header line has too
+func c14BodyName(n string) string {
+	if len(n) > 0 && (n[len(n)-1]-'0')%2 == 1 {
+		return "body-2024-01-01T10:30:" + n + ".json"
+	}
+	return "body" + n
 }
 
 func c14Clone(t vegeta.Target) vegeta.Target {
@@ -244,11 +253,11 @@ func runC14(c c14Case) error {
 	}
 	for i, t := range c.Targets {
 		if t.HasBody {
-			if err := os.WriteFile(filepath.Join(bodyDir, fmt.Sprintf("body%d", i)), t.Body, 0o644); err != nil {
+			if err := os.WriteFile(filepath.Join(bodyDir, c14BodyName(strconv.Itoa(i))), t.Body, 0o644); err != nil {
 				return err
 			}
 			if c.ViaLink {
-				if err := os.WriteFile(filepath.Join(dir, fmt.Sprintf("body%d", i)), []byte("another file"), 0o644); err != nil {
+				if err := os.WriteFile(filepath.Join(dir, c14BodyName(strconv.Itoa(i))), []byte("another file"), 0o644); err != nil {
 					return err
 				}
 			}
@@ -259,7 +268,7 @@ func runC14(c c14Case) error {
 	for i, l := range c.Lines {
 		tl := strings.TrimSpace(l)
 		if strings.HasPrefix(tl, "@") {
-			l = strings.Replace(l, tl, "@"+refDir+string(filepath.Separator)+"body"+tl[1:], 1) // (not Join: it would clean the path)
+			l = strings.Replace(l, tl, "@"+refDir+string(filepath.Separator)+c14BodyName(tl[1:]), 1) // (not Join: it would clean the path)
 		}
 		lines[i] = l
 	}
@@ -477,6 +486,8 @@ func c14Gen(t *rapid.T) (c c14Case, commentsAfterReq int) {
 	n := rapid.IntRange(1, 12).Draw(t, "ntargets")
 	if rapid.IntRange(0, 15).Draw(t, "many") == 0 {
 		n = rapid.IntRange(13, 50).Draw(t, "ntargets2")
+	} else if rapid.IntRange(0, 29).Draw(t, "verymany") == 0 {
+		n = rapid.IntRange(129, 400).Draw(t, "ntargets3") // more than any batch a reader may work in
 	}
 	nd := rapid.IntRange(0, 4).Draw(t, "ndefaults")
 	var defKeys []string
